@@ -54,6 +54,7 @@ def run(ck):
                      {"examples": [c[2] for c in corr[:5]], "broken_obligation": ck.proof.get("broken")}, tag="correspondence", no_input=True)
     ck.assumptions = ["expressions must be consumed in the full-expression that builds them (expr holds references)",
                       "shapes rejected by the compiler for a back end are outside the claim (table in coverage.accept_reject_table)"]
+    vf.run_deps(ck, ['C03'])
     return ck.finish(trusted=["coqc 8.16.1 kernel", "extraction + driver.ml", "generated h_expr harness (22 shapes x 4 destinations x poly/poly_p x 3 back ends)", "translator"],
                      extra_cov={"params_sha": info})
 
